@@ -428,6 +428,8 @@ def r9(F, rep, rid="C15-R9"):
 
 
 def run(F, rep, tier):
+    from .rules_c19 import named_output
+    named_output(F, rep, "C15-R11")
     r8(F, rep)
     r10(F, rep)
     r9(F, rep)
